@@ -134,9 +134,10 @@ theorem local_maxima_loop_marks_local_maxima (g : Graph) (hv : g.Valid) (col : L
   omega
 
 /-- `local_maxima(refdim, th)` on the whole graph: depth `0` below the threshold; at or above it,
-    positive exactly at the local maxima of the thresholded subfield (PARTIAL: which positive value —
-    the order of the maximum — is validated by correspondence and the ball-radius oracle only). -/
-theorem local_maxima_depth_positive_iff_partial (g : Graph) (hv : g.Valid) (col : List Rat) (th : Rat)
+    positive exactly at the local maxima of the thresholded subfield.  (WHICH positive value — the
+    radius of the largest ball in which the vertex is maximal, capped — is
+    `local_maxima_loop_depth_is_ball_radius` in Props/C12L.) -/
+theorem local_maxima_depth_positive_iff (g : Graph) (hv : g.Valid) (col : List Rat) (th : Rat)
     (v : Nat) (hvV : v < g.V) :
     let valid := fun u => decide (th ≤ at_ col u)
     (at_ col v < th → (localMaxima g col th).getD v 0 = 0) ∧
@@ -238,7 +239,7 @@ theorem diffusion_linear (g : Graph) (n : Nat) (a b : Rat) (x y : Nat → Rat) :
 
 /-! ## Histories on one Field object -/
 
-/-- the composition of the operators of a history, on total fields -/
+/-- the composition of the operators of a history, on total fields (graph fixed) -/
 def histFn (g : Graph) (ops : List FieldOp) (f : Nat → Rat) : Nat → Rat :=
   ops.foldl (fun h op => opFnD g op h) f
 
@@ -251,33 +252,53 @@ theorem local_histFn (g : Graph) (hv : g.Valid) (ops : List FieldOp) : Local g.V
     exact ih _ _ (local_opFnD g hv op f f' H)
 
 /-- One in-place call (`dilation`, `erosion`, `opening`, `closing`, `diffusion`, either dilation
-    path) replaces every column of the field by the operator applied to it and touches nothing else. -/
+    path, any dtype) replaces every column of the field by the operator applied to it, leaves the
+    graph alone, and sets the dtype flag as the operator does (`diffusion` yields float64). -/
 theorem field_step_is_operator (s : FieldSt) (hv : s.g.Valid) (hl : ∀ c ∈ s.cols, c.length = s.g.V)
     (op : FieldOp) (hop : isInPlace op = true) :
     stepField s op =
-      (⟨s.g, s.cols.map (fun c => (List.range s.g.V).map (opFnD s.g op (at_ c)))⟩, "none") := by
-  obtain ⟨F, hF, _⟩ := colOp_spec s.g hv op hop (List.replicate s.g.V 0) (by simp)
+      (⟨s.g, s.cols.map (fun c => (List.range s.g.V).map (opFnD s.g op (at_ c))), is64After s.is64 op⟩,
+        "none") := by
+  obtain ⟨F, hF, _⟩ := colOp_spec s.g hv s.is64 op hop (List.replicate s.g.V 0) (by simp)
   have hm : s.cols.mapM F = some (s.cols.map (fun c => (List.range s.g.V).map (opFnD s.g op (at_ c)))) := by
     apply mapM_some
     intro c hc
-    obtain ⟨F', hF', hspec⟩ := colOp_spec s.g hv op hop c (hl c hc)
+    obtain ⟨F', hF', hspec⟩ := colOp_spec s.g hv s.is64 op hop c (hl c hc)
     rw [hF] at hF'; cases hF'
     exact hspec
   unfold stepField
   rw [hF]
   simp only [hm]
 
-/-- **Field histories**: after any sequence of in-place operators on one object, every column is
-    the composition of the modelled operators applied to the initial column, and the graph
-    (vertices, edges, weights) is the one the object started with. -/
+/-- **Which dilation path runs, and why the result does not depend on it.**  The compiled path is
+    taken exactly when the call asks for it and the field is float64 (`fast and dtype == float64`;
+    `opening`/`closing` always ask).  On every valid graph the object left behind is the same
+    whichever flag the call passes and whichever dtype the field has — so the history theorems
+    cover integer and float32 fields exactly as they cover float64 ones. -/
+theorem dilation_path_depends_on_dtype_result_does_not (s : FieldSt) (hv : s.g.Valid)
+    (hl : ∀ c ∈ s.cols, c.length = s.g.V) (n : Nat) (fast : Bool) :
+    colOp s.g s.is64 (.dilation n fast) = some (dilate s.g n (fast && s.is64)) ∧
+      colOp s.g s.is64 (.opening n) = some (fun c => (erode s.g n c).bind (dilate s.g n s.is64)) ∧
+      (stepField s (.dilation n fast)).1 = (stepField s (.dilation n (!fast))).1 ∧
+      (stepField ⟨s.g, s.cols, true⟩ (.dilation n fast)).1.cols =
+        (stepField ⟨s.g, s.cols, false⟩ (.dilation n fast)).1.cols := by
+  refine ⟨rfl, rfl, ?_, ?_⟩
+  · rw [field_step_is_operator s hv hl _ rfl, field_step_is_operator s hv hl _ rfl]
+    rfl
+  · rw [field_step_is_operator ⟨s.g, s.cols, true⟩ hv hl _ rfl,
+      field_step_is_operator ⟨s.g, s.cols, false⟩ hv hl _ rfl]
+
+/-- **Field histories** (graph untouched): after any sequence of in-place operators on one object,
+    every column is the composition of the modelled operators applied to the initial column, and
+    the graph (vertices, edges, weights) is the one the object started with. -/
 theorem field_history_is_composition (s : FieldSt) (hv : s.g.Valid)
     (hl : ∀ c ∈ s.cols, c.length = s.g.V) (ops : List FieldOp) (hops : ∀ op ∈ ops, isInPlace op = true) :
     finalField s ops =
-      ⟨s.g, s.cols.map (fun c => (List.range s.g.V).map (histFn s.g ops (at_ c)))⟩ := by
+      ⟨s.g, s.cols.map (fun c => (List.range s.g.V).map (histFn s.g ops (at_ c))), flagFrom s.is64 ops⟩ := by
   induction ops generalizing s with
   | nil =>
-    obtain ⟨g, cols⟩ := s
-    simp only [finalField, List.foldl_nil, histFn]
+    obtain ⟨g, cols, b⟩ := s
+    simp only [finalField, List.foldl_nil, histFn, flagFrom]
     congr 1
     have : cols.map (fun c => (List.range g.V).map (at_ c)) = cols.map id :=
       List.map_congr_left (fun c hc => map_at_range (hl c hc))
@@ -286,18 +307,89 @@ theorem field_history_is_composition (s : FieldSt) (hv : s.g.Valid)
     have hstep := field_step_is_operator s hv hl op (hops op List.mem_cons_self)
     simp only [finalField, List.foldl_cons] at ih ⊢
     rw [hstep]
-    have := ih ⟨s.g, s.cols.map (fun c => (List.range s.g.V).map (opFnD s.g op (at_ c)))⟩ hv
+    have := ih ⟨s.g, s.cols.map (fun c => (List.range s.g.V).map (opFnD s.g op (at_ c))),
+      is64After s.is64 op⟩ hv
       (by intro c hc; obtain ⟨c0, _, rfl⟩ := List.mem_map.1 hc; simp)
       (fun o ho => hops o (List.mem_cons_of_mem _ ho))
     rw [this]
-    simp only [List.map_map]
+    simp only [List.map_map, flagFrom, List.foldl_cons]
     congr 1
     apply List.map_congr_left
     intro c _
     apply List.map_congr_left
     intro i hi
-    simp only [histFn, List.foldl_cons]
+    simp only [histFn, List.foldl_cons, Function.comp]
     exact local_histFn s.g hv t _ _ (fun j hj => at_map_range _ hj) i (List.mem_range.1 hi)
+
+/-- one call that is an in-place operator or a graph edit (`set_edges`, edge assignment,
+    `set_weights`; a refused edit changes nothing): the new graph, columns and dtype flag -/
+theorem field_step_with_graph_edit (s : FieldSt) (hv : s.g.Valid) (hl : ∀ c ∈ s.cols, c.length = s.g.V)
+    (op : FieldOp) (hop : isInPlace op = true ∨ isGraphEdit op = true) :
+    (stepField s op).1 =
+      ⟨graphAfter s.g op, s.cols.map (fun c => (List.range s.g.V).map (opFnD s.g op (at_ c))),
+        is64After s.is64 op⟩ := by
+  rcases hop with hop | hop
+  · rw [field_step_is_operator s hv hl op hop, graphAfter_inPlace s.g op hop]
+  · have hcols : s.cols.map (fun c => (List.range s.g.V).map (at_ c)) = s.cols := by
+      have : s.cols.map (fun c => (List.range s.g.V).map (at_ c)) = s.cols.map id :=
+        List.map_congr_left (fun c hc => map_at_range (hl c hc))
+      rw [this, List.map_id]
+    obtain ⟨g, cols, b⟩ := s
+    cases op <;> simp only [isGraphEdit] at hop <;> try exact absurd hop (by decide)
+    case setEdges es =>
+      simp only [stepField, colOp, opFnD, is64After, id] at hcols ⊢
+      by_cases hok : edgesOk g es = true
+      · rw [if_pos hok, hcols]
+      · rw [if_neg hok]
+        simp only [graphAfter, hok, Bool.false_eq_true, if_false]
+        rw [hcols]
+    case setWeights ws =>
+      simp only [stepField, colOp, opFnD, is64After, id] at hcols ⊢
+      by_cases hok : ws.length = g.edges.length
+      · rw [if_pos hok, hcols]
+      · rw [if_neg hok]
+        simp only [graphAfter, hok, if_false]
+        rw [hcols]
+
+/-- **Field histories with the graph replaced in place**: in-place operators interleaved with
+    `set_edges` / edge assignment / `set_weights`.  The object ends with the graph the edits
+    produce, and every column is the composition of the operators, EACH TAKEN ON THE GRAPH THE
+    OBJECT HAD WHEN IT RAN — nothing is remembered from a replaced graph. -/
+theorem field_history_with_graph_edits (s : FieldSt) (hv : s.g.Valid)
+    (hl : ∀ c ∈ s.cols, c.length = s.g.V) (ops : List FieldOp)
+    (hops : ∀ op ∈ ops, isInPlace op = true ∨ isGraphEdit op = true) :
+    finalField s ops =
+      ⟨graphFrom s.g ops, s.cols.map (fun c => (List.range s.g.V).map (histFrom s.g ops (at_ c))),
+        flagFrom s.is64 ops⟩ := by
+  induction ops generalizing s with
+  | nil =>
+    obtain ⟨g, cols, b⟩ := s
+    simp only [finalField, List.foldl_nil, histFrom, graphFrom, flagFrom]
+    congr 1
+    have : cols.map (fun c => (List.range g.V).map (at_ c)) = cols.map id :=
+      List.map_congr_left (fun c hc => map_at_range (hl c hc))
+    rw [this, List.map_id]
+  | cons op t ih =>
+    have hstep := field_step_with_graph_edit s hv hl op (hops op List.mem_cons_self)
+    simp only [finalField, List.foldl_cons] at ih ⊢
+    rw [hstep]
+    have hv' := graphAfter_valid s.g hv op
+    have hV' := graphAfter_V s.g op
+    have := ih ⟨graphAfter s.g op, s.cols.map (fun c => (List.range s.g.V).map (opFnD s.g op (at_ c))),
+      is64After s.is64 op⟩ hv'
+      (by intro c hc; obtain ⟨c0, _, rfl⟩ := List.mem_map.1 hc; simp [hV'])
+      (fun o ho => hops o (List.mem_cons_of_mem _ ho))
+    rw [this]
+    simp only [List.map_map, flagFrom, graphFrom, List.foldl_cons, hV']
+    congr 1
+    apply List.map_congr_left
+    intro c _
+    apply List.map_congr_left
+    intro i hi
+    simp only [histFrom, Function.comp]
+    have hloc := local_histFrom t (graphAfter s.g op) hv'
+    rw [hV'] at hloc
+    exact hloc _ _ (fun j hj => at_map_range _ hj) i (List.mem_range.1 hi)
 
 /-- Frame: every query (`local_maxima`, `get_local_maxima`, `custom_watershed`, `highest_neighbor`,
     `copy`, `subfield` whose result is not adopted, and the opaque queries) leaves the object as it
